@@ -97,15 +97,19 @@ def run_format_tie(ctx, tied, budget):
         if sc.dialect is None and k % 2 == 1:
             # give every second scenario a caller dialect (the user-dialect x built-in-dialect merge is what is tied here);
             # every class gets its own Config (ADD_DIALECT_SUPPORT) with the options it effectively had
-            eff = {c.name: (c.by_alias, c.omit_none) for c in sc.classes}
+            eff = {c.name: (c.by_alias, c.omit_none, c.omit_default) for c in sc.classes}
             for c in sc.classes:
-                c.by_alias_own, on = eff[c.name]
+                c.by_alias_own, on, od = eff[c.name]
                 c.own_config = True
                 c.extra.pop("omit_none", None)
+                c.extra.pop("omit_default", None)
                 if on is not None:
                     c.extra["omit_none"] = str(on)
+                if od is not None:
+                    c.extra["omit_default"] = str(od)
             sc.dialect = ctx.rng.choice([True, False, "unset"])
             sc.dialect_omit = ctx.rng.choice([None, True, False])
+            sc.dialect_omit_default = ctx.rng.choice([None, None, True, False])
         src = L.scenario_src(sc)
         try:
             mod = L.load_module(src, f"fmttie{fmt}{k}")
